@@ -1,6 +1,7 @@
 package main
 
 import (
+	"net/http"
 	"bytes"
 	"encoding/json"
 	"fmt"
@@ -99,6 +100,12 @@ func (in *instance) do(op *Op) (out string) {
 		}
 		in.hosts.Delete(op.Pattern)
 		return "ok"
+	case "gnew2": // another router built while other instances are being served
+		if in.g == nil {
+			return "n/a"
+		}
+		r2 := in.g.New(op.Name, mux.MatcherFunc(func(*http.Request, *types.Context) bool { return false }))
+		return "ok " + r2.Name()
 	case "hreg":
 		if in.hosts == nil {
 			return "n/a"
@@ -142,6 +149,11 @@ func genInstanceScript(r *Rng, kind string, t int, n int) []Op {
 			default:
 				op.K, op.Req = "hmatch", &Req{Host: pick(r, []string{"a.com", "x.c.com", "7.g.com", "zz.com", "B.com:80", "42.h.com", "digit.h.com", "ab.i.com", "word.i.com"})}
 			}
+			ops = append(ops, op)
+			continue
+		}
+		if kind == "group" && r.Pct(12) {
+			op.K, op.Name = "gnew2", fmt.Sprintf("x%d-%d", t, i)
 			ops = append(ops, op)
 			continue
 		}
@@ -341,8 +353,11 @@ func genC07(r *Rng, idx int, tier string) *World {
 // ("base options + extra" idiom).  A callee that appends to a caller's slice
 // instead of copying it writes into this array.
 var optBase = func() []mux.Option {
-	b := make([]mux.Option, 1, 8)
+	b := make([]mux.Option, 2, 8)
 	b[0] = mux.WithURLDomain("https://base.example")
+	// one Option value applied to every group (and by Group.New to every router of a group): whatever an
+	// option builds per application must not be shared between the routers it was applied to
+	b[1] = mux.WithCORS([]string{"https://a.com"}, []string{"X-Token"}, []string{"X-Exp"}, 60, false)
 	return b
 }()
 
